@@ -1203,3 +1203,45 @@ package ring
 //@   loop 7 invariant 0 <= j && j <= shift
 //@   loop 8 invariant 0 <= i && i <= r.level+1
 //@   loop 9 invariant shift <= j && j <= N
+
+// ---- uniform sampling (property C17): every value handed to the store callback lies in [0, q_j);
+// ---- the byte buffer is read in aligned 8-byte words inside its bounds, for every state of the
+// ---- shared read pointer that earlier calls (on any level view) can have left ----
+//@ func ext:encoding/binary.bigEndian.Uint64
+//@   trusted decodes 8 bytes; panics on a shorter slice
+//@   requires len(b) >= 8
+
+//@ func Ring.Level
+//@   ensures result == r.level
+
+//@ func UniformSampler.read
+//@   property C17
+//@   let buf = u.randomBuffer.randomBufferN
+//@   let rg = u.baseSampler.baseRing
+//@   requires 8 <= len(buf) && len(buf) % 8 == 0
+//@   requires 0 <= u.randomBuffer.ptr && u.randomBuffer.ptr <= len(buf) && u.randomBuffer.ptr % 8 == 0
+//@   requires 0 <= rg.level && rg.level < len(rg.SubRings) && rg.level < len(pol.Coeffs)
+//@   requires 0 <= rg.SubRings[0].N && forall(j, 0, rg.level+1, len(pol.Coeffs[j]) >= rg.SubRings[0].N)
+//@   fnparam f requires b < c
+//@   ensures 0 <= u.randomBuffer.ptr && u.randomBuffer.ptr <= len(buf) && u.randomBuffer.ptr % 8 == 0
+//@   loop 0 invariant 0 <= j && j <= level+1 && 0 <= ptr && ptr <= byteArrayLength && ptr % 8 == 0
+//@   loop 1 invariant 0 <= i && i <= N && 0 <= ptr && ptr <= byteArrayLength && ptr % 8 == 0
+//@   loop 2 invariant 0 <= ptr && ptr <= byteArrayLength && ptr % 8 == 0
+
+//@ func ext:encoding/binary.bigEndian.Uint32
+//@   trusted decodes 4 bytes; panics on a shorter slice
+//@   requires len(b) >= 4
+
+// rejection sampling under a mask: the result is below the bound, whatever the generator returns
+//@ func randInt64
+//@   property C17
+//@   ensures result <= mask
+
+//@ func randInt32
+//@   property C17
+//@   ensures result <= mask
+
+//@ func RandUniform
+//@   property C17
+//@   ensures randomInt < v
+//@   loop 0 invariant true
